@@ -116,8 +116,13 @@ class Canonical(MonteCarlo[MoveType, CriteriaType], Generic[MoveType, CriteriaTy
         set."""
         self.context.last_positions = self.atoms.get_positions()
 
+        # always ask the calculator: a freshly attached one (e.g. after a restart) then
+        # holds results for the current configuration, so that a first rejected move can
+        # hand them back instead of leaving the calculator without results
+        potential_energy = self.atoms.get_potential_energy()
+
         if np.isnan(self.context.last_potential_energy):
-            self.context.last_potential_energy = self.atoms.get_potential_energy()
+            self.context.last_potential_energy = potential_energy
 
         super().validate_simulation()
 
